@@ -54,8 +54,10 @@ impl Curve25519Legacy {
 
     /// Reads the value in the reverse order (little endian), because..PGP screwed up
     pub fn try_from_bytes_rev(bytes: &[u8]) -> Result<Self> {
-        let rev: Vec<u8> = bytes.iter().rev().copied().collect();
-        let secret_raw = pad_key::<32>(&rev)?;
+        // `bytes` is big endian, leading zeros may have been stripped (MPI): restore them first,
+        // then reverse. (Padding the reversed value would add the zeros at the wrong end.)
+        let mut secret_raw = pad_key::<32>(bytes)?;
+        secret_raw.reverse();
         let secret = x25519_dalek::StaticSecret::from(secret_raw);
         Ok(Self(secret))
     }
